@@ -826,13 +826,20 @@ func overlapDeepCycle(k int) gen.AdvCase {
 		Doc: "{ u { ...F } }\nfragment F on Node { " + s + " }\n"}
 }
 
+// overlapScaleDiv divides the default sizes of the X-overlap stages when the run is embedded in
+// another check (C08); overlapOnBatch, when set, also receives every batch of mutated documents.
+var (
+	overlapScaleDiv = 1
+	overlapOnBatch  func([][2]string)
+)
+
 func overlapEnvInt(name string, def int) int {
 	if v := os.Getenv(name); v != "" {
 		if n, err := strconv.Atoi(v); err == nil {
 			return n
 		}
 	}
-	return def
+	return max(def/overlapScaleDiv, 1)
 }
 
 func init() {
@@ -1062,6 +1069,9 @@ func init() {
 				rules = OverlapMixRules
 			}
 			c.corrOverlap(batch, rules, st, false)
+			if overlapOnBatch != nil {
+				overlapOnBatch(batch)
+			}
 			done += len(batch)
 			fmt.Printf("  mutations so far: %d (%.0f s)\n", done, time.Since(t0).Seconds())
 		}
@@ -1080,11 +1090,13 @@ func init() {
 
 		// (f) time budget of the real rule on the adversarial families (always), and the largest
 		// family size at which one validation stays under 1 s, Go and model
-		overlapBudget(c)
-		if os.Getenv("VERIF_OVERLAP_NOTIMING") == "" {
-			overlapTiming(c)
+		if overlapScaleDiv == 1 {
+			overlapBudget(c)
+			if os.Getenv("VERIF_OVERLAP_NOTIMING") == "" {
+				overlapTiming(c)
+			}
+			c.Ev.Evals = st.cases
 		}
-		c.Ev.Evals = st.cases
 		c.Ev.Extra["overlap_message_shapes"] = st.reasons
 	}
 }
